@@ -107,10 +107,26 @@ static void diff_line(const std::string &a, const std::string &b, std::string &l
 static void exec_on(World &w, const Op &o, int ri) {
   Run &r = *w.run;
   Dump B = w.r[ri].last;
-  bool handled = ops_core(w, o);
+  bool handled = ops_core(w, o) || ops_aux(w, o);
   if (!handled) { r.ev("unknown op %s", o.kind.c_str()); return; }
   if (!w.r[ri].live()) return;
-  observe(w, ri, w.r[ri].adopted ? "C19" : "C02");
+  bool aux = o.kind.rfind("dist_", 0) == 0 || o.kind.rfind("mem_", 0) == 0 || o.kind.rfind("kind_", 0) == 0;
+  observe(w, ri, w.r[ri].adopted ? "C19" : "C02", aux && (o.u("obs") & 1));
+  // a Group merged with another Group may take over its place and storage under a new gp_index (hwloc_replace_linked_object):
+  // structures that referenced the old Group now reference its replacement; the reference list follows that renaming
+  if (o.kind == "group" || o.kind == "dist_add") {
+    std::map<hwloc_obj_t, uint64_t> bp; for (auto &kv : B.objs) if (kv.second.type == HWLOC_OBJ_GROUP) bp[kv.second.ptr] = kv.first;
+    for (auto &kv : w.r[ri].last.objs) { if (kv.second.type != HWLOC_OBJ_GROUP) continue; auto it = bp.find(kv.second.ptr); if (it == bp.end() || it->second == kv.first || w.r[ri].last.find(it->second)) continue;
+      for (auto &dm : w.r[ri].user_dists) for (auto &g : dm.objs) if (g == it->second) { g = kv.first; r.count("probe.group_replaced_renames_distance_object"); } }
+  }
+  // memattr targets and object initiators are identified by gp_index: a Group that was replaced is a removed object for them
+  if (o.kind == "group" || o.kind == "dist_add") {
+    const Dump &A = w.r[ri].last;
+    for (auto &am : w.r[ri].memattrs) { MemAttrModel &m = am.second;
+      for (auto it = m.noinit.begin(); it != m.noinit.end();) { if (!A.find(it->first)) it = m.noinit.erase(it); else ++it; }
+      for (auto it = m.tg.begin(); it != m.tg.end();) { bool gone = !A.find(it->first); if (!gone) { std::vector<MemInitModel> v; for (auto &i : it->second) if (!i.is_obj || A.find(i.objgp)) v.push_back(i); it->second = v; gone = v.empty(); } if (gone) it = m.tg.erase(it); else ++it; } }
+  }
+  check_models(w, ri, o.kind.c_str());
   generic_after(w, ri, B);
   independence(w, ri);
   r.ev("state r%d %016llx", ri, (unsigned long long)hash_str(w.r[ri].last_text));
@@ -158,6 +174,14 @@ struct TopoMachine : Machine {
     struct W { const char *k; int w; };
     std::vector<W> al = {{"restrict", 6}, {"insert_misc", 4}, {"group", 5}, {"allow", 2}, {"add_info", 2}, {"modify_infos", 3}, {"topo_info", 1}, {"set_subtype", 2}, {"refresh", 1}, {"set_userdata", 3}};
     al.push_back({"dup", 0}); al.push_back({"xml_restart", 0}); al.push_back({"destroy", 0});
+    // 13.. : distances, memattrs, cpukinds
+    al.push_back({"dist_add", 2}); al.push_back({"dist_get", 1}); al.push_back({"dist_remove", 1}); al.push_back({"dist_transform", 0});
+    al.push_back({"mem_register", 1}); al.push_back({"mem_set", 2}); al.push_back({"mem_query", 1}); al.push_back({"mem_local", 1});
+    al.push_back({"kind_register", 2}); al.push_back({"kind_query", 1});
+    if (prop == "C13") { al[13].w = 10; al[14].w = 8; al[15].w = 4; al[16].w = 5; al[0].w = 5; al[10].w = 2; al[11].w = 2; al[3].w = 0; }
+    if (prop == "C14") { al[17].w = 4; al[18].w = 12; al[19].w = 8; al[20].w = 5; al[0].w = 5; al[10].w = 2; al[11].w = 2; al[13].w = 0; al[21].w = 0; }
+    if (prop == "C15") { al[21].w = 12; al[22].w = 6; al[0].w = 5; al[10].w = 2; al[11].w = 2; al[13].w = 0; al[17].w = 0; al[18].w = 0; }
+    if (prop == "C08" || prop == "C01") for (size_t i = 13; i < al.size(); i++) al[i].w = (prop == "C08" && i != 16) ? 1 : 0;
     if (prop == "C08") { al[0].w = 20; al[1].w = 8; }
     if (prop == "C12") { al[10].w = 7; al[11].w = 1; al[12].w = 3; }
     if (prop == "C05") { al[11].w = 7; al[10].w = 1; al[12].w = 2; }
@@ -171,6 +195,17 @@ struct TopoMachine : Machine {
       Op o(k); o.set("r", (int64_t)ops.below(4));
       std::string ks = k;
       if (ks != "dup" && ks != "xml_restart" && ks != "destroy" && ops.chance(1, 2)) o.set("both", 1);
+      if (ks.rfind("dist_", 0) == 0 || ks.rfind("mem_", 0) == 0 || ks.rfind("kind_", 0) == 0) o.set("obs", (int64_t)ops.below(2));
+      if (ks == "dist_add") o.set("kind", (int64_t)ops.below(10)).set("name", (int64_t)ops.below(4)).set("cf", (int64_t)ops.below(1000)).set("n", ops.chance(1, 5) ? (int64_t)ops.below(7) : 2 + (int64_t)ops.below(5)).set("mix", (int64_t)ops.below(1000)).set("ty", ops.chance(2, 3) ? (int64_t)ops.below(3) : (int64_t)ops.below(8)).setu("vs", ops.next()).set("vm", (int64_t)ops.below(3)).set("vf", (int64_t)ops.below(1000)).set("mf", (int64_t)ops.below(12));
+      if (ks == "dist_get") o.set("how", (int64_t)ops.below(4)).set("kf", (int64_t)ops.below(30)).set("ty", ops.chance(2, 3) ? (int64_t)ops.below(3) : (int64_t)ops.below(8)).set("name", (int64_t)ops.below(2)).set("cap", (int64_t)ops.below(1000));
+      if (ks == "dist_remove") o.set("w", (int64_t)ops.below(3)).set("all", (int64_t)ops.below(4)).set("ty", (int64_t)ops.below(8)).set("idx", (int64_t)ops.below(100));
+      if (ks == "dist_transform") o.set("idx", (int64_t)ops.below(100)).set("tr", (int64_t)ops.below(4)).set("holes", (int64_t)ops.below(100));
+      if (ks == "mem_register") o.set("name", (int64_t)ops.below(4)).set("fl", (int64_t)ops.below(8));
+      if (ks == "mem_set") o.set("attr", (int64_t)ops.below(100)).set("node", (int64_t)ops.below(100)).set("val", (int64_t)ops.below(100)).set("im", (int64_t)ops.below(8)).set("init", (int64_t)ops.below(100)).set("ik", (int64_t)ops.below(3));
+      if (ks == "mem_query") o.set("attr", (int64_t)ops.below(100)).set("sub", (int64_t)ops.below(2)).set("cap", (int64_t)ops.below(100)).set("pu", (int64_t)ops.below(1000)).set("tg", (int64_t)ops.below(100));
+      if (ks == "mem_local") o.set("fl", (int64_t)ops.below(9)).set("byobj", (int64_t)ops.below(2)).set("o", (int64_t)ops.below(1000)).set("mode", ops.chance(1, 2) ? 1 : (int64_t)ops.below(9)).setu("bits", ops.next());
+      if (ks == "kind_register") o.set("mode", (int64_t)ops.below(7)).set("sm", (int64_t)ops.below(2)).setu("bits", ops.next()).set("eff", (int64_t)ops.below(8)).set("fl", (int64_t)ops.below(1000)).set("ni", (int64_t)ops.below(4)).setu("is", ops.next());
+      if (ks == "kind_query") o.set("a", (int64_t)ops.below(100));
       if (ks == "xml_restart") o.set("via", (int64_t)ops.below(2)).set("v2", (int64_t)ops.below(8)).set("pre", (int64_t)ops.below(3));
       if (ks == "restrict") {
         int fl = 0; bool bynode = ops.chance(1, 3);
@@ -201,6 +236,7 @@ struct TopoMachine : Machine {
     std::string why;
     if (!load_source(w, 0, p, why)) { r.ev("no topology: %s", why.c_str()); return; }
     observe(w, 0, "C01", true);
+    models_init(w, 0);
     r.count("loads_ok");
     int idx = 0;
     for (const Op &o : p.ops) {
@@ -231,8 +267,6 @@ struct TopoMachine : Machine {
   }
 };
 
-void models_after_restrict(World &, int, const Dump &, const Dump &) {}
-void check_models(World &, int, const char *) {}
 
 }  // namespace hwsim
 
